@@ -30,12 +30,12 @@ func init() {
 		Old: "\tfor ; n != nil && n.Type == AttributeNode; n = n.NextSibling {", New: "\tfor ; n != nil && n.Type == AttributeNode && n.Type != AttributeNode; n = n.NextSibling {",
 		Rule: "R11d", Substr: "MoveToChild", Why: "child axis returns an attribute node"})
 	control(Control{ID: "c11-nav-previous-into-attrs", Prop: "C11", File: "idr/navigator.go",
-		Old: "\tif nav.cur.PrevSibling == nil || nav.cur.PrevSibling.Type == AttributeNode {\n\t\treturn false\n\t}\n\tnav.cur = nav.cur.PrevSibling",
-		New: "\tif nav.cur.PrevSibling == nil {\n\t\treturn false\n\t}\n\tnav.cur = nav.cur.PrevSibling",
+		Old:  "\tif nav.cur.PrevSibling == nil || nav.cur.PrevSibling.Type == AttributeNode {\n\t\treturn false\n\t}\n\tnav.cur = nav.cur.PrevSibling",
+		New:  "\tif nav.cur.PrevSibling == nil {\n\t\treturn false\n\t}\n\tnav.cur = nav.cur.PrevSibling",
 		Rule: "R11d", Substr: "MoveToPrevious", Why: "preceding-sibling axis walks into the attributes"})
 	control(Control{ID: "c11-nav-first-jumps-to-firstchild", Prop: "C11", File: "idr/navigator.go",
-		Old: "\tfor ; n.PrevSibling != nil && n.PrevSibling.Type != AttributeNode; n = n.PrevSibling {",
-		New: "\tif n.Parent != nil {\n\t\tn = n.Parent.FirstChild\n\t}\n\tfor ; false; n = n.PrevSibling {",
+		Old:  "\tfor ; n.PrevSibling != nil && n.PrevSibling.Type != AttributeNode; n = n.PrevSibling {",
+		New:  "\tif n.Parent != nil {\n\t\tn = n.Parent.FirstChild\n\t}\n\tfor ; false; n = n.PrevSibling {",
 		Rule: "R11d", Substr: "MoveToFirst", Why: "last() lands on the first attribute when the parent has attributes"})
 }
 
